@@ -120,6 +120,10 @@ package ice
 //@   site store disconnectedTimeout#1 assert default-only-when-unset: config.DisconnectedTimeout == nil && value == defaultDisconnectedTimeout
 //@   site store disconnectedTimeout#2 assert a-configured-timeout-is-taken-as-is: config.DisconnectedTimeout != nil && value == *config.DisconnectedTimeout
 //@   site store disconnectedTimeoutExplicit#1 assert explicit-iff-configured-zero-included: value == (config.DisconnectedTimeout != nil)
+//@   site store candidateTypes#1 assert C18 every-candidate-type-is-enabled-only-when-none-was-configured: len(config.CandidateTypes) == 0
+//@   site store candidateTypes#2 assert C18 the-configured-candidate-types-are-taken-as-they-are: len(config.CandidateTypes) != 0 && value == config.CandidateTypes
+//@   site store keepaliveInterval#1 assert C04 default-keepalive-only-when-unset: config.KeepaliveInterval == nil && value == defaultKeepaliveInterval
+//@   site store keepaliveInterval#2 assert C04 a-configured-keepalive-interval-zero-included-is-taken-as-is: config.KeepaliveInterval != nil && value == *config.KeepaliveInterval
 //@   site store tcpPriorityOffset#1 assert C17 default-offset-only-when-unset: config.TCPPriorityOffset == nil && value == defaultTCPPriorityOffset
 //@   site store tcpPriorityOffset#2 assert C17 a-configured-offset-zero-included-is-taken-as-is: config.TCPPriorityOffset != nil && value == *config.TCPPriorityOffset
 //@   site store failedTimeout#1 assert default-only-when-unset-2: config.FailedTimeout == nil && value == defaultFailedTimeout
